@@ -70,6 +70,19 @@ CHECKS["C15"] = {
     "technique": "bounded exhaustive check of the function's contract (stand-in where the deductive verifiers cannot reach)",
 }
 
+CHECKS["C02"] = {
+    "text": "Proof (Verus) of the outer-brace rule on the real code: Parameter::should_trim_outer_braces_if_present returns true iff the whole argument is a single group (first brace closed only by the last token) for every token list; plus a bounded stand-in (not proof): 4476 generated definitions and calls run in the real VM against an executable transcription of TeX's macro_call (shortest brace-balanced run before the delimiter at depth 0, undelimited = next token or group after spaces, #{ form, substitution order, tokens after the call untouched).",
+    "design_ref": "DESIGN.md §5 C02",
+    "note": "Only the trim rule is proved for all inputs. The delimited-argument scan, replacement substitution, the \\def parameter-text parser and the KMP matcher are covered by the bounded driver only (labelled bounded in evidence).",
+    "technique": "contract-based deductive verification (Verus loop invariant over a brace-depth spec) + bounded contract check where the verifier does not reach",
+}
+CHECKS["C09"] = {
+    "text": "FUNCTIONS UNDER CONTRACT ONLY. Proof (Verus) that every texlang / common / stdext function under contract in C01, C02, C06, C07, C20 is free of arithmetic overflow, out-of-bounds indexing, unwrap/expect on None/Err, unreachable!/todo! and division by zero for ALL inputs satisfying its stated precondition, with every precondition discharged at each verified call site; plus a bounded driver running the real number/dimension/character-code scanners on values at and beyond every limit. Totality of the interpreter as a whole is NOT claimed.",
+    "design_ref": "DESIGN.md §5 C09",
+    "note": "About 85% of the VM (run_impl dispatch, the.rs, error rendering, file location parsing, most primitives) is outside the functions under contract; shutdown-protocol consistency is not decided. The check reports only safety-kind obligations (postcondition mismatches belong to the property that owns the unit).",
+    "technique": "contract-based deductive verification: Verus safety obligations (overflow/bounds/unwrap/division) of the functions under contract",
+}
+
 NOT_APPLICABLE = {
     "C01": "not built yet",
     "C02": "not built yet",
